@@ -20,16 +20,18 @@ RULE = ('(1) every modelled built-in class x space kinds (unweighted / const / a
 ASSUMPTIONS = ['exact arithmetic: entries are small integers / dyadic rationals, so float results are exact or within 1e-9',
                'every ODL space used has a diagonal Gram matrix (checked on each case: off-diagonal inner products are 0)',
                'the inner products themselves (Gram diagonals are read from the implementation) are the subject of C02',
-               'finite-difference leaves reuse C13 (tables regenerated from diff_ops.py)']
+               'finite-difference leaves reuse C13 (tables regenerated from diff_ops.py); ResizingOperator leaves reuse '
+               'C16 (slice arithmetic regenerated from resize_array), in its separable form']
 TRUSTED = ['harness/c05.py:encode (reads the operator object graph: class names, .left/.right/.scalar/.vector/.matrix ...)',
            'C05/Model.v eval/adjoint (hand-written; validated by the correspondence on every class/option)',
-           'translate/finite_diff.py (shared with C13)']
+           'translate/finite_diff.py (shared with C13)', 'translate/padding.py (shared with C16)']
 
 warnings.filterwarnings('ignore')
 
 
 def translate():
-    return {'Gen/FiniteDiff.v': TFD.translate()}
+    from translate import padding as TPAD
+    return {'Gen/FiniteDiff.v': TFD.translate(), 'Gen/Padding.v': TPAD.translate()}
 
 
 # ===================================================================== spaces
@@ -181,17 +183,6 @@ def _pweights(P):
     raise Unsupported('product weighting %r' % w)
 
 
-_RP_VARIANT = []
-
-
-def realpart_variant():
-    """variant switch of finding realpart-complex-adjoint-domain, measured on its own replay input"""
-    if not _RP_VARIANT:
-        import odl
-        _RP_VARIANT.append(bool(odl.RealPart(odl.cn(1)).adjoint.domain == odl.rn(1)))
-    return _RP_VARIANT[0]
-
-
 def encode(op, mode):
     """Coq term of type oexpr T for an ODL operator object (fail closed)."""
     import odl
@@ -200,6 +191,7 @@ def encode(op, mode):
     from odl.operator import tensor_ops as TO
     from odl.operator import pspace_ops as PO
     from odl.discr import diff_ops as DO
+    from odl.discr import discr_ops as DI
 
     def W(sp):
         return vec(gram(sp, mode), mode)
@@ -247,14 +239,14 @@ def encode(op, mode):
         re = t is D.RealPart
         if op.domain.is_real:
             return '(Leaf (%s %s))' % ('LRealR' if re else 'LImagR', W(op.domain))
-        return '(Leaf (%s %s %s))' % ('LRealC' if re else 'LImagC', W(op.range), C.b(realpart_variant()))
+        return '(Leaf (%s %s))' % ('LRealC' if re else 'LImagC', W(op.range))
     if t is D.ComplexEmbedding:
         if mode == 'C':
             raise Unsupported('ComplexEmbedding in complex mode')
         s = complex(op.scalar)
         rw = vec(gram(op.domain.real_space, 'Q'), 'Q')
         if op.domain.is_real:
-            return '(Leaf (LEmbedR %s %s %s %s))' % (rw, C.q(s.real), C.q(s.imag), C.b(realpart_variant()))
+            return '(Leaf (LEmbedR %s %s %s))' % (rw, C.q(s.real), C.q(s.imag))
         return '(Leaf (LEmbedC %s %s %s))' % (rw, C.q(s.real), C.q(s.imag))
     if t is TO.MatrixOperator:
         import scipy.sparse
@@ -304,6 +296,18 @@ def encode(op, mode):
             return '(Leaf (LLap %s %s %s %s %s))' % (W(op.domain), W(op.range), shape, TFD.PMODE[op.pad_mode], dxs)
         return '(Leaf (%s %s %s %s %s %s %s))' % ('LGrad' if t is DO.Gradient else 'LDiv', W(op.domain), W(op.range),
                                                   shape, TFD.METH[op.method], TFD.PMODE[op.pad_mode], dxs)
+    if t is DI.ResizingOperator or name == 'ResizingOperatorAdjoint':
+        from translate import padding as TPAD
+        fwd = t is DI.ResizingOperator
+        if fwd:
+            rop = op
+        else:
+            rop = op.adjoint                      # the ResizingOperator it was built from
+        if not rop.is_linear:
+            raise Unsupported('affine ResizingOperator')
+        return '(Leaf (%s %s %s C16.Syntax.%s %s %s %s))' % (
+            'LResize' if fwd else 'LResizeAdj', W(op.domain), W(op.range), TPAD.PMODE[rop.pad_mode],
+            nats(rop.domain.shape), nats(rop.range.shape), C.zs([int(o) for o in rop.offset]) + '%Z')
     if t is PO.BroadcastOperator:
         return '(Bcast %s)' % C.lst([encode(o, mode) for o in op.operators])
     if t is PO.ReductionOperator:
@@ -362,7 +366,10 @@ def verdict(op, adj=None, tol=1e-9):
     """The property on the real objects over full bases.  Returns (holds, spaces_ok, maxdefect, witness)."""
     adj = op.adjoint if adj is None else adj
     spaces_ok = (adj.domain == op.range and adj.range == op.domain)
-    mixed = _is_complex(op.domain) != _is_complex(op.range)
+    # real part whenever a real<->complex operator occurs anywhere in the expression: such an operator is
+    # only real-linear (also when composed back into a complex->complex map), and the real-part pairing is
+    # the only sense in which it has an adjoint (C = R^2)
+    mixed = (_is_complex(op.domain) != _is_complex(op.range)) or mode_of(op) == 'R2'
     worst, wit = 0.0, None
     for i, x in enumerate(basis(op.domain, 'R2')):
         ax = op(x)
@@ -706,19 +713,22 @@ def correspondence(rng, tier):
     global LAST_STATS
     stats = {}
     for cls, kind, op in builtin_ops(rng, tier):
-        try:
-            mode, coq, info = make_case(rng, op)
-        except Unsupported as e:
-            # only the recorded no-adjoint cases may be skipped (the probes report them)
-            if cls == 'MultiplyOperator-field' and kind.startswith('complex') and 'adjoint raised' in str(e):
-                continue
-            raise
+        mode, coq, info = make_case(rng, op)
         cs = csC if mode == 'C' else csQ
         desc = {'class': cls, 'space': kind, 'mode': mode, 'holds': info['holds'], 'op': repr(op)[:200]}
         cs.add(coq, desc, (cls, kind, C.digest(coq)) if info['nontrivial'] else None)
         st = stats.setdefault(cls, [0, 0])
         st[0] += 1
         st[1] += 0 if info['holds'] else 1
+    # classes that entered the model later (ResizingOperator ...): whatever the encoder accepts
+    for cls, kind, op in extra_ops(rng, tier):
+        try:
+            mode, coq, info = make_case(rng, op)
+        except Unsupported:
+            continue
+        cs = csC if mode == 'C' else csQ
+        cs.add(coq, {'class': cls, 'space': kind, 'mode': mode, 'holds': info['holds'], 'op': repr(op)[:200]},
+               (cls, kind, C.digest(coq)) if info['nontrivial'] else None)
     ntree = 60 if tier == 'quick' else 400
     for i in range(ntree):
         cplx = (i % 3 == 2)
@@ -747,12 +757,7 @@ def correspondence(rng, tier):
             lambda: odl.BroadcastOperator(parts[0], parts[1]),
             lambda: odl.ReductionOperator(E, b * E),
         ])()
-        try:
-            mode, coq, info = make_case(rng, op)
-        except Unsupported:
-            # compositions with RealPart/ImagPart of a complex space on the right have no adjoint
-            # (finding realpart-complex-adjoint-domain; reported by the probes)
-            continue
+        mode, coq, info = make_case(rng, op)
         csT.add(coq, {'tree': repr(op)[:300], 'mode': mode, 'holds': info['holds']},
                 ('mixed', C.digest(coq)) if info['nontrivial'] else None)
     LAST_STATS = stats
@@ -806,8 +811,6 @@ def finding_keys(op):
             wd, wr = gram(o.domain, 'Q'), gram(o.range, 'Q')
             if not (_const(wd) and _const(wr)):
                 keys.add('resizing-adjoint-nodes-on-bdry')
-        elif t in (D.RealPart, D.ImagPart) and not o.domain.is_real:
-            keys.add('realpart-complex-adjoint-domain')
         for a in ('left', 'right', 'operator', 'functional'):
             sub = getattr(o, a, None)
             if sub is not None and hasattr(sub, 'domain'):
@@ -937,36 +940,22 @@ def probes(rng, tier):
         expected = sorted(finding_keys(op))
         if ok:
             key = 'adjoint-%s-%s' % (cls, kind)
-        elif clause == 'adjoint-raises' and 'realpart-complex-adjoint-domain' in expected:
-            key = 'realpart-complex-adjoint-domain'
-        elif clause == 'spaces' and 'realpart-complex-adjoint-domain' in expected:
-            key = 'realpart-complex-adjoint-domain'
         elif clause == 'identity' and expected:
             key = expected[0]
-        elif clause == 'adjoint-raises' and cls == 'MultiplyOperator-field' and kind.startswith('complex'):
-            key = 'innerproduct-complex-double-adjoint-raises'
-        elif clause == 'double-adjoint-raises' and _is_complex(op.domain) and \
-                ('InnerProductOperator' in repr(op) or 'FunctionalLeftVectorMult' in repr(op)):
-            key = 'innerproduct-complex-double-adjoint-raises'
         else:
             key = 'adjoint-%s-%s-%s' % (cls, kind, clause)
         rp = ("import sys\nsys.path.insert(0, %r)\nfrom harness import c05\nop = c05.nth_probe_op(%d, %r, %d)\n"
               "print(repr(op)[:400])\nok, clause, observed = c05.check_property(op)\n"
               "expected = 'adjoint identity, swapped spaces, A.adjoint.adjoint = A'\n" % (C.VERIF, seed, tier, k))
         out.append(C.Probe(ok, key, '%s on %s: %s' % (cls, kind, repr(op)[:160]), rp, {'clause': clause, 'detail': detail}))
-    # clauses about operators that have NO adjoint although linear (recorded separately)
-    c3 = odl.cn(2)
-    v = c3.element([1 + 2j, 3j])
-    A = odl.MultiplyOperator(v, domain=odl.ComplexNumbers())
-    try:
-        A.adjoint
-        ok = check_property(A)[0]
-    except AttributeError:
-        ok = False
-    out.append(C.Probe(ok, 'innerproduct-complex-double-adjoint-raises',
-                       'MultiplyOperator(complex vector, domain=ComplexNumbers()).adjoint',
-                       "import odl\nA=odl.MultiplyOperator(odl.cn(2).element([1+2j,3j]), domain=odl.ComplexNumbers())\n"
-                       "try:\n    A.adjoint; ok=True\nexcept AttributeError as e:\n    ok=False; observed=repr(e)\n"))
+    # fixed finding innerproduct-complex-double-adjoint-raises (/repo a344936): must hold now
+    A = odl.MultiplyOperator(odl.cn(2).element([1 + 2j, 3j]), domain=odl.ComplexNumbers())
+    ok, clause, detail = check_property(A)
+    out.append(C.Probe(ok, 'adjoint-MultiplyOperator-field-complex',
+                       'MultiplyOperator(complex vector, domain=ComplexNumbers())',
+                       "import sys\nsys.path.insert(0, %r)\nfrom harness import c05\nimport odl\n"
+                       "A=odl.MultiplyOperator(odl.cn(2).element([1+2j,3j]), domain=odl.ComplexNumbers())\n"
+                       "ok, clause, observed = c05.check_property(A)\n" % C.VERIF, {'clause': clause, 'detail': detail}))
     return out
 
 
@@ -974,16 +963,20 @@ LEVEL_TEXT = ('Proof: Coq proves, over an abstract commutative ring with involut
               'EVERY operator expression tree (sum, composition, scalar multiples on either side, vector multiples on either '
               'side, functional-times-vector, Broadcast/Reduction/Diagonal blocks; any depth and width) the expression the '
               'library returns as .adjoint (mirrored incl. Python operator dispatch and scalar merging) maps range to '
-              'domain and satisfies <Ax,y>_ran = <x,A*y>_dom in the weighted inner products whenever the leaves do, and that '
-              'A.adjoint.adjoint acts like A (uniqueness of adjoints). Leaf theorems for all sizes/index lists/weights: '
-              'Scaling, Multiply, InnerProduct, field-Multiply, Zero (any weights); Matrix, Sampling, WeightedSumSampling, '
-              'Flattening (+inverse), ComponentProjection(+Adjoint), 1-d PartialDerivative for all 30 method/padding pairs '
-              '(via C13) under the exact weighting precondition -- and the full statements are REFUTED by witnesses on '
-              'non-uniformly weighted spaces (8 recorded findings). The model is tied to the code by an in-Coq '
-              'correspondence on full bases (forward, adjoint, double adjoint, spaces, and the identity verdict).')
-LEVEL_NOTE = ('Validated, not proved: PointwiseInner(Adjoint), Gradient/Divergence/Laplacian and N-d PartialDerivative, '
-              'RealPart/ImagPart/ComplexEmbedding (modelled + correspondence + probes); ResizingOperator, N-d/sparse '
-              'MatrixOperator, DFT (probes only). Trusted: the encoder reading the operator object graph, exact-arithmetic '
-              'idealisation (dyadic inputs), Gram diagonals read from the implementation (C02). The generic theorems are '
-              'closed under the global context; instances at R use the classical-reals axioms printed.')
+              'domain and satisfies <Ax,y>_ran = <x,A*y>_dom in the weighted inner products whenever the leaves do, that the '
+              'returned adjoint is again such a tree, and that A.adjoint.adjoint acts like A. Leaf theorems for all '
+              'sizes/shapes/index lists: Scaling, Multiply, InnerProduct, field-Multiply, Zero, PointwiseInner(+Adjoint), '
+              'RealPart/ImagPart/ComplexEmbedding (any weights); Matrix (1-d and along an axis of any N-d shape), Sampling, '
+              'WeightedSumSampling, Flattening(+inverse), ComponentProjection(+Adjoint), PartialDerivative/Gradient/'
+              'Divergence/Laplacian for every shape and all method/padding pairs (lifting C13), ResizingOperator for all 5 pad '
+              'modes (lifting C16) under the exact weighting precondition -- and the full statements are REFUTED by '
+              'witnesses on non-uniformly weighted spaces (6 open findings; 2 fixed in /repo). Preconditions of the Matrix '
+              'and Sampling theorems are proved necessary. The model is tied to the code by an in-Coq correspondence on '
+              'full bases (structure, spaces, forward, adjoint, double adjoint, identity verdict).')
+LEVEL_NOTE = ('Validated, not proved: the code-order adjoint of ResizingOperator when several axes are resized at once '
+              '(proved for the reversed axis order and for <= 1 resized axis), sparse matrices (same model as dense), '
+              'ComponentProjection with slice/list index, operators on product-space elements, ComplexModulus derivatives, '
+              'DFT (probes only). Trusted: the encoder reading the operator object graph, exact-arithmetic idealisation '
+              '(dyadic inputs), Gram diagonals read from the implementation (C02), translators of C13/C16. The generic '
+              'theorems are closed under the global context; instances at R use the classical-reals axioms printed.')
 TECHNIQUE = 'Coq proof by structural induction over a deep embedding of operator arithmetic (abstract ring with involution) + in-Coq differential correspondence via full matrices'
